@@ -150,6 +150,30 @@ func (m *M) binop(op token.Token, xv, yv Value, xt, yt types.Type, rt types.Type
 				if !m.Decide(smt.Not(smt.Eq(y, smt.BVC(w, 0)))) {
 					panic(execPanic{msg: "runtime error: integer divide by zero"})
 				}
+				// Int-domain dividend (clock differences, Int inputs) and positive constant divisor: divide in the
+				// Int domain (truncation toward zero), which solvers decide easily, unlike 64-bit bvsdiv by 10^9
+				if y.IsConst() && y.SInt() > 0 && x.Op == "int2bv" && x.Hint != "" && w >= 32 && signed {
+					xi := x.Args[0]
+					c := smt.IntC(y.SInt())
+					var q, rem *smt.Term
+					if x.Hint == "nn" {
+						q, rem = smt.IntDiv(xi, c), smt.IntMod(xi, c)
+					} else {
+						neg := smt.IntLt(xi, smt.IntC(0))
+						nx := smt.IntSub(smt.IntC(0), xi)
+						q = smt.Ite(neg, smt.IntSub(smt.IntC(0), smt.IntDiv(nx, c)), smt.IntDiv(xi, c))
+						rem = smt.Ite(neg, smt.IntSub(smt.IntC(0), smt.IntMod(nx, c)), smt.IntMod(xi, c))
+					}
+					res := q
+					if op == token.REM {
+						res = rem
+					}
+					out := smt.Int2BV(w, res)
+					if out.Op == "int2bv" {
+						out.Hint = x.Hint
+					}
+					return out
+				}
 				if op == token.QUO {
 					if signed {
 						return smt.BVSDiv(x, y)
@@ -328,7 +352,11 @@ func (m *M) convert(v Value, from, to types.Type) Value {
 		}
 		r := smt.ToReal(iv)
 		if !r.IsConst() {
-			setRealInfo(r, realInfo{integral: true, bound: new(big.Int).Lsh(big.NewInt(1), uint(fw))})
+			bits := uint(fw)
+			if x.Op == "int2bv" && x.Hint != "" {
+				bits = 40 // Int-domain values are below 2^40 in magnitude by construction
+			}
+			setRealInfo(r, realInfo{integral: true, bound: new(big.Int).Lsh(big.NewInt(1), bits)})
 		}
 		if fw > 32 {
 			m.ex.noteAssumption("int64->float64 conversions are treated as exact (|x| < 2^53 assumed)")
